@@ -2,6 +2,7 @@ package rules
 
 import (
 	"go/token"
+	"go/types"
 	"regexp"
 	"strings"
 
@@ -205,58 +206,128 @@ func checkC18(c *Ctx) {
 		})
 	}
 
+	// ---- complete reports -------------------------------------------------------------------------
+	// a price report counts towards the quorum only if it lists every required price: the per-name "found" test
+	// must start afresh for every required name (a flag carried over from the previous name accepts reports that
+	// list only the first one), and the normalised powers the median and the holders tally are weighted with
+	// are truncated shares (rounding up lets less than two thirds pass the MaxUint16*2/3 threshold)
+	r.Min("C18.complete-report", 2)
+	for _, m := range roots.Msg {
+		if !inPkg(m, "oracle/keeper") || m.Name() != "PriceClaim" {
+			continue
+		}
+		sticky := ""
+		for _, b := range m.Blocks {
+			for _, in := range b.Instrs {
+				ph, ok := in.(*ssa.Phi)
+				if !ok {
+					continue
+				}
+				if bt, ok := ph.Type().Underlying().(*types.Basic); !ok || bt.Kind() != types.Bool {
+					continue
+				}
+				// a loop header phi: one incoming edge comes from a block the header dominates
+				carried := false
+				for i, pred := range b.Preds {
+					if b.Dominates(pred) && i < len(ph.Edges) {
+						if k, ok := ph.Edges[i].(*ssa.Const); ok && k.Value != nil && k.Value.ExactString() == "false" {
+							continue
+						}
+						carried = true
+					}
+				}
+				if !carried {
+					continue
+				}
+				// is the flag (or a merge of it) tested inside that loop?
+				var uses func(v ssa.Value, depth int) bool
+				uses = func(v ssa.Value, depth int) bool {
+					if depth > 3 {
+						return false
+					}
+					for _, ref := range *v.Referrers() {
+						switch x := ref.(type) {
+						case *ssa.If:
+							if b.Dominates(x.Block()) && reachFromTo(x.Block(), b) {
+								return true
+							}
+						case *ssa.Phi:
+							if x != ph && uses(x, depth+1) {
+								return true
+							}
+						case *ssa.UnOp:
+							if uses(x, depth+1) {
+								return true
+							}
+						}
+					}
+					return false
+				}
+				if uses(ph, 0) {
+					sticky = c.pos(ph)
+					if sticky == "-" {
+						sticky = p.Pos(m.Pos())
+					}
+				}
+			}
+		}
+		r.Check(sticky == "", "C18.complete-report", "per-name:"+fname(m), p.Pos(m.Pos()), "no found-flag is carried from one required price to the next",
+			"the required-price test of the price report carries its found-flag from one required name to the next ("+sticky+"): a report that lists only the first required price is accepted and counts towards the quorum")
+	}
+	if nf := p.Func("oracle/keeper.Keeper.GetNormalizedValPowers"); nf != nil {
+		okTrunc, nUpd := true, 0
+		detail := ""
+		ana.Instrs(nf, func(in ssa.Instruction) {
+			mu, ok := in.(*ssa.MapUpdate)
+			if !ok {
+				return
+			}
+			ex := p.Expr(mu.Value, 0)
+			if !strings.Contains(ex, "QuoUint64") {
+				return // the raw power of the first pass
+			}
+			nUpd++
+			// Uint64(QuoUint64(MulUint64(NewUint(power), 65535), total)), nothing in between
+			chain := []string{"Uint64", "QuoUint64", "MulUint64", "NewUint"}
+			v := mu.Value
+			okChain := true
+			for i, want := range chain {
+				call, _ := ana.UnwrapCall(v)
+				if call == nil {
+					okChain = false
+					break
+				}
+				d, _ := ana.Describe(&call.Call)
+				if d.Name != want || len(call.Call.Args) == 0 {
+					okChain = false
+					break
+				}
+				if want == "MulUint64" && (len(call.Call.Args) != 2 || !isConstVal(call.Call.Args[1], "65535")) {
+					okChain = false
+					break
+				}
+				if i < len(chain)-1 {
+					v = call.Call.Args[0]
+				}
+			}
+			if !okChain {
+				okTrunc = false
+				detail = ex
+			}
+		})
+		r.Check(okTrunc && nUpd > 0, "C18.complete-report", "normalised-powers", p.Pos(nf.Pos()), "normalised power = power*MaxUint16/total, truncated",
+			"the normalised validator powers are not the truncated shares power*MaxUint16/total ("+detail+"): with shares rounded up, reporters holding two thirds or less can pass the 'more than two thirds' threshold and the median weights shift")
+	} else {
+		r.Undecided("C18.complete-report", "normalised-powers", "-", "GetNormalizedValPowers not found")
+	}
+
 	// ---- latest report --------------------------------------------------------------------------
 	// a validator's report of an epoch is stored under a key that does not contain the reported values, and the
 	// handler reads that slot at the boundary: the latest report counts only if the recorder overwrites, i.e. the
 	// write does not depend on whether a claim is already stored
 	r.Min("C18.latest", 1)
-	for f, effs := range c.Writers(live, "Set", "OracleClaimKey") {
-		if c.isGenesisImport(f) {
-			continue
-		}
-		var reads []Eff
-		for _, e := range c.Effects(f) {
-			if e.Kind == "store" && e.Prefix == "OracleClaimKey" && (e.Op == "Get" || e.Op == "Has") {
-				reads = append(reads, e)
-			}
-		}
-		bad := ""
-		for _, w := range effs {
-			for _, rd := range reads {
-				rv, ok := rd.At.(ssa.Value)
-				if !ok {
-					continue
-				}
-				for _, b := range f.Blocks {
-					if len(b.Instrs) == 0 || len(b.Succs) != 2 {
-						continue
-					}
-					iff, ok := b.Instrs[len(b.Instrs)-1].(*ssa.If)
-					if !ok {
-						continue
-					}
-					dep := false
-					for _, vals := range p.Leaves(iff.Cond, ana.PVOpt{Opaque: func(d ana.CalleeDesc) bool { return true }}).Vals {
-						for _, v := range vals {
-							if v == rv {
-								dep = true
-							}
-						}
-					}
-					if !dep {
-						continue
-					}
-					r0 := reachFromTo(b.Succs[0], w.At.Block())
-					r1 := reachFromTo(b.Succs[1], w.At.Block())
-					if r0 != r1 {
-						bad = c.pos(iff)
-					}
-				}
-			}
-		}
-		r.Check(bad == "", "C18.latest", fname(f), p.Pos(f.Pos()), "the claim recorder stores every accepted report (an earlier report of the epoch is overwritten)",
-			"the claim recorder stores a report only depending on whether one is already stored (test at "+bad+"): a validator's first report of the epoch sticks and its corrected report is dropped")
-	}
+	c.checkOverwrites("C18.latest", "OracleClaimKey", live, "the claim recorder stores every accepted report (an earlier report of the epoch is overwritten)",
+		"the claim recorder stores a report only depending on whether one is already stored (test at %s): a validator's first report of the epoch sticks and its corrected report is dropped")
 
 	// ---- writers ------------------------------------------------------------------------------
 	var handler *ssa.Function
@@ -526,4 +597,66 @@ func (c *Ctx) voteAppendDistinct(st *ssa.Store) bool {
 		return false, true
 	})
 	return ana.Guarded(st, member, exhausted) && len(ana.IfsUsing(st.Parent(), func(cd ana.Cond) bool { _, m := member(cd); return m })) > 0
+}
+
+// checkOverwrites: in every function (other than the genesis import) that Sets the prefix, whether the Set is
+// reached does not depend on a Get / Has of the same prefix: a later write replaces an earlier one.
+func (c *Ctx) checkOverwrites(rule, prefix string, live map[*ssa.Function]bool, okText, badFmt string) {
+	p, r := c.P, c.R
+	ws := c.Writers(live, "Set", prefix)
+	for _, f := range sortedKeys(ws) {
+		effs := ws[f]
+		if c.isGenesisImport(f) {
+			continue
+		}
+		var reads []Eff
+		for _, e := range c.Effects(f) {
+			if e.Kind == "store" && e.Prefix == prefix && (e.Op == "Get" || e.Op == "Has") {
+				reads = append(reads, e)
+			}
+		}
+		bad := ""
+		for _, w := range effs {
+			if w.At.Parent() != f {
+				continue
+			}
+			for _, rd := range reads {
+				var rvs []ssa.Value
+				if rv, ok := rd.At.(ssa.Value); ok {
+					rvs = append(rvs, rv)
+				}
+				if rv, ok := rd.Prim.(ssa.Value); ok {
+					rvs = append(rvs, rv)
+				}
+				for _, b := range f.Blocks {
+					if len(b.Instrs) == 0 || len(b.Succs) != 2 {
+						continue
+					}
+					iff, ok := b.Instrs[len(b.Instrs)-1].(*ssa.If)
+					if !ok {
+						continue
+					}
+					dep := false
+					for _, vals := range p.Leaves(iff.Cond, ana.PVOpt{Opaque: func(d ana.CalleeDesc) bool { return true }}).Vals {
+						for _, v := range vals {
+							for _, rv := range rvs {
+								if v == rv {
+									dep = true
+								}
+							}
+						}
+					}
+					if !dep {
+						continue
+					}
+					r0 := reachFromTo(b.Succs[0], w.At.Block())
+					r1 := reachFromTo(b.Succs[1], w.At.Block())
+					if r0 != r1 {
+						bad = c.pos(iff)
+					}
+				}
+			}
+		}
+		r.Check(bad == "", rule, fname(f), p.Pos(f.Pos()), okText, sprintf(badFmt, bad))
+	}
 }
